@@ -15,7 +15,10 @@ static long long n_run = 0, n_emit = 0, n_diff = 0;
 
 // att_*: the attribute connectivity derived from the same table (MeshAttributeCornerTable::InitFromAttribute over a seam-free attribute):
 // att_inv = corners of non-degenerate faces without an attribute vertex, att_nv / att_maxv = number of attribute vertices / largest one in use
-struct Obs { std::vector<int> opp, ctv, vc, par; int iso = 0, deg = 0; bool ok = false; double ms = 0; bool att_ok = false; int att_inv = 0, att_nv = 0, att_maxv = -1; std::vector<int> attv; bool att_part_ok = true; };
+struct Obs { std::vector<int> opp, ctv, vc, par; int iso = 0, deg = 0; bool ok = false; double ms = 0; bool att_ok = false; int att_inv = 0, att_nv = 0, att_maxv = -1; std::vector<int> attv; bool att_part_ok = true;
+             // the same table under an attribute WITH seams (per-corner values): value index per corner, attribute vertex per corner, per attribute vertex its
+             // entry (VertexParent) and the table vertex of its left-most corner
+             bool s_ok = false; std::vector<int> s_val, s_av, s_parent, s_left; };
 static Obs run_ct(const std::vector<int> &F) {
   Obs o;
   IndexTypeVector<FaceIndex, CornerTable::FaceType> faces;
@@ -80,11 +83,48 @@ static Obs run_ct(const std::vector<int> &F) {
       }
     }
   }
+  {
+    // a soup over the same position ids: one point per corner, face f = (3f, 3f+1, 3f+2); a second attribute gives every corner one of three values per
+    // position id (hash of face, corner slot and id): seams wherever two faces disagree at an end of a shared edge
+    const int nc = (int)F.size();
+    Mesh soup;
+    soup.set_num_points(nc);
+    GeometryAttribute gp;
+    gp.Init(GeometryAttribute::POSITION, nullptr, 1, DT_INT32, false, 4, 0);
+    int maxid = 0;
+    for (int x : F) maxid = std::max(maxid, x);
+    const int pid = soup.AddAttribute(gp, false, maxid + 1);
+    for (int v = 0; v <= maxid; ++v) { const int32_t x = v; soup.attribute(pid)->SetAttributeValue(AttributeValueIndex(v), &x); }
+    GeometryAttribute gt;
+    gt.Init(GeometryAttribute::GENERIC, nullptr, 1, DT_INT32, false, 4, 0);
+    const int tid = soup.AddAttribute(gt, false, 3 * (maxid + 1));
+    for (int v = 0; v < 3 * (maxid + 1); ++v) { const int32_t x = v; soup.attribute(tid)->SetAttributeValue(AttributeValueIndex(v), &x); }
+    for (int c = 0; c < nc; ++c) {
+      soup.attribute(pid)->SetPointMapEntry(PointIndex(c), AttributeValueIndex(F[c]));
+      const int variant = (int)(((unsigned)(c / 3) * 2654435761u >> 7) % 3 == 0 ? (((unsigned)c * 40503u >> 3) % 3) : 0);   // most faces agree, a third go their own way
+      const int val = 3 * F[c] + variant;
+      soup.attribute(tid)->SetPointMapEntry(PointIndex(c), AttributeValueIndex(val));
+      o.s_val.push_back(val);
+    }
+    for (int f = 0; f < nc / 3; ++f) { Mesh::Face fc; fc[0] = PointIndex(3 * f); fc[1] = PointIndex(3 * f + 1); fc[2] = PointIndex(3 * f + 2); soup.AddFace(fc); }
+    static MeshAttributeCornerTable reused_s;
+    MeshAttributeCornerTable fresh_s;
+    MeshAttributeCornerTable &sa = (n_run % 2) ? reused_s : fresh_s;
+    o.s_ok = sa.InitFromAttribute(&soup, ct.get(), soup.attribute(tid));
+    if (o.s_ok) {
+      for (int c = 0; c < nc; ++c) { const VertexIndex v = sa.Vertex(CornerIndex(c)); o.s_av.push_back(v == kInvalidVertexIndex ? -1 : (int)v.value()); }
+      for (int v = 0; v < sa.num_vertices(); ++v) {
+        o.s_parent.push_back((int)sa.VertexParent(VertexIndex(v)).value());
+        const CornerIndex l = sa.LeftMostCorner(VertexIndex(v));
+        o.s_left.push_back(l == kInvalidCornerIndex ? -1 : (int)l.value());
+      }
+    }
+  }
   return o;
 }
 static void emit(const std::vector<int> &F, const Obs &o, bool same, const char *src) {
   out.begin("CT").s("src", src).arr("f", F).b("ok", o.ok).arr("opp", o.opp).arr("ctv", o.ctv).arr("vc", o.vc).arr("par", o.par)
-      .i("iso", o.iso).i("deg", o.deg).b("same", same).i("ms", (long long)o.ms).b("att_ok", o.att_ok).i("att_inv", o.att_inv).i("att_nv", o.att_nv).i("att_maxv", o.att_maxv).arr("attv", o.attv).b("att_part_ok", o.att_part_ok).end();
+      .i("iso", o.iso).i("deg", o.deg).b("same", same).i("ms", (long long)o.ms).b("att_ok", o.att_ok).i("att_inv", o.att_inv).i("att_nv", o.att_nv).i("att_maxv", o.att_maxv).b("s_ok", o.s_ok).arr("s_val", o.s_val).arr("s_av", o.s_av).arr("s_parent", o.s_parent).arr("s_left", o.s_left).arr("attv", o.attv).b("att_part_ok", o.att_part_ok).end();
   ++n_emit;
 }
 
